@@ -142,6 +142,19 @@ type Obs struct {
 	// composite-key table and the single-record finders into destinations carrying a key
 	CKRows   [][3]int64 `json:"ck_rows"`   // a, b, v
 	CKProbes [][5]int64 `json:"ck_probes"` // finder (0 first 1 take 2 last), a, b, found (0/1; 2 = another error), v
+	// one inline primary key given to the finders: First / Take / Last (nil = not found) and Find
+	InlKey  int64  `json:"inl_key"`
+	Inl     []*Row `json:"inl"`
+	InlFind []Row  `json:"inl_find"`
+	// pagination idiom on a reusable handle: Count, then Limit(2).Find continued from Count's result;
+	// and the same page without the Count
+	CPage  []Row `json:"c_page"`
+	Page   []Row `json:"page"`
+	CPageN int64 `json:"c_page_n"`
+	// two sibling chains of one reusable parent that carries three tie orderings, built before
+	// either runs: one adds Order("id"), the other Order("id desc")
+	SibAsc  []Row `json:"sib_asc"`
+	SibDesc []Row `json:"sib_desc"`
 }
 
 func chain(db *gorm.DB, in Input) *gorm.DB {
@@ -410,7 +423,75 @@ func run(db *gorm.DB, in Input) (o Obs) {
 	}
 	selectedColumns(db, in, &o)
 	compositeKeys(db, in, &o)
+	inlineAndSiblings(db, in, &o)
 	return o
+}
+
+// inlineAndSiblings: finders with one inline primary key; Count followed by a page read continued
+// from its result; sibling chains of a reusable parent with several orderings.
+func inlineAndSiblings(db *gorm.DB, in Input, o *Obs) {
+	fail := func(where string, err error) {
+		if err != nil {
+			o.Errs = append(o.Errs, where+": "+err.Error())
+		}
+	}
+	o.Inl, o.InlFind, o.CPage, o.Page, o.SibAsc, o.SibDesc = []*Row{}, []Row{}, []Row{}, []Row{}, []Row{}, []Row{}
+	o.CPageN = -1
+	if len(in.Lops) == 0 {
+		// a key that exists in the table (matching the chain or not) or no key at all
+		o.InlKey = int64(len(in.Tbl)/2*3 + 1)
+		if len(in.Tbl) > 0 {
+			o.InlKey = in.Tbl[(len(in.Tbl)+int(in.BS))%len(in.Tbl)].ID
+			if (len(in.Tbl)+int(in.BS))%5 == 0 {
+				o.InlKey = 9999
+			}
+		}
+		for _, f := range []func(tx *gorm.DB, d *Item) *gorm.DB{
+			func(tx *gorm.DB, d *Item) *gorm.DB { return tx.First(d, o.InlKey) },
+			func(tx *gorm.DB, d *Item) *gorm.DB { return tx.Take(d, o.InlKey) },
+			func(tx *gorm.DB, d *Item) *gorm.DB { return tx.Last(d, o.InlKey) },
+		} {
+			var it Item
+			r := f(chain(db, in), &it)
+			switch {
+			case errors.Is(r.Error, gorm.ErrRecordNotFound):
+				o.Inl = append(o.Inl, nil)
+			case r.Error != nil:
+				fail("inline finder", r.Error)
+				o.Inl = append(o.Inl, nil)
+			default:
+				o.Inl = append(o.Inl, &Row{it.ID, it.V})
+			}
+		}
+		var items []Item
+		fail("inline find", chain(db, in).Find(&items, o.InlKey).Error)
+		o.InlFind = toRows(items)
+	}
+	// pagination on a reusable handle
+	h := chain(db, in).Session(&gorm.Session{})
+	{
+		var items []Item
+		fail("page", h.Limit(2).Find(&items).Error)
+		o.Page = toRows(items)
+		var n int64
+		var citems []Item
+		// Count is called on the reusable handle itself (it carries the Model), and the page read
+		// continues from what Count returned
+		hm := chain(db, in).Model(&Item{}).Session(&gorm.Session{})
+		fail("count+page", hm.Count(&n).Limit(2).Find(&citems).Error)
+		o.CPage, o.CPageN = toRows(citems), n
+	}
+	// siblings of a parent with three tie orderings (chains without an ordering of their own)
+	if in.Ord == "none" {
+		in2 := in
+		parent := chain(db, in2).Order("v - v").Order("id - id").Order("0 + 0").Session(&gorm.Session{})
+		asc := parent.Order("id")
+		desc := parent.Order("id desc")
+		var a, d []Item
+		fail("sibling asc", asc.Find(&a).Error)
+		fail("sibling desc", desc.Find(&d).Error)
+		o.SibAsc, o.SibDesc = toRows(a), toRows(d)
+	}
 }
 
 // selectedColumns: with a Select on the chain Count still equals the number of rows Find returns
@@ -548,7 +629,9 @@ func term(in Input, o Obs) string {
 		lib.ListOf(o.CKRows, func(r [3]int64) string { return lib.Pair(lib.Pair(lib.Z(r[0]), lib.Z(r[1])), lib.Z(r[2])) }),
 		lib.ListOf(o.CKProbes, func(p [5]int64) string {
 			return lib.Pair(lib.Pair(lib.Z(p[0]), lib.Pair(lib.Z(p[1]), lib.Z(p[2]))), lib.Pair(lib.Z(p[3]), lib.Z(p[4])))
-		}))
+		}),
+		lib.Z(o.InlKey), lib.ListOf(o.Inl, gORow), gRows(o.InlFind),
+		gRows(o.CPage), gRows(o.Page), lib.Z(o.CPageN), gRows(o.SibAsc), gRows(o.SibDesc))
 }
 
 // ---- generation ----
